@@ -4,6 +4,9 @@ import sympy as sp
 import z3
 
 
+LEAVES = {}  # name of a non-polynomial leaf (uninterpreted application, array cell) -> its z3 term
+
+
 def to_sympy(t, env=None):
     env = {} if env is None else env
 
@@ -41,7 +44,9 @@ def to_sympy(t, env=None):
         if k == z3.Z3_OP_UNINTERPRETED and not ch:
             return sym(e.decl().name())
         if k == z3.Z3_OP_SELECT or k == z3.Z3_OP_UNINTERPRETED:
-            return sym(" ".join(str(z3.simplify(e)).split()))  # canonical text of the application = one indeterminate
+            nm = " ".join(str(z3.simplify(e)).split())  # canonical text of the application = one indeterminate
+            LEAVES[nm] = z3.simplify(e)
+            return sym(nm)
         raise ValueError(f"not a polynomial term: {e.decl().name()}")
 
     return go(t)
